@@ -38,6 +38,14 @@ D_MUL = [
     d_apa("MulLimbs (Apalache, i128): the ORIGINAL assertion is reachable (carry = -1)", "AP_MulLimbs.tla", "CInitS", "AssertOriginal",
           expect="violated"),
 ]
+D_MUL += [
+    d_apa("MulLimbs (Apalache, all operands): ExactP = Exact (distributivity of the partial products)", "AP_MulLimbs.tla", "CInitS", "Distrib"),
+    d_apa("MulLimbs (Apalache, u128, f = 64): combine_lo_then_shl = floor(product / 2^f) mod 2^128 and exact flag", "AP_MulLimbs.tla", "CInitU", "Combine"),
+    d_apa("MulLimbs (Apalache, u128, f = 1)", "AP_MulLimbs.tla", "CInitU1", "Combine"),
+    d_apa("MulLimbs (Apalache, u128, f = 127)", "AP_MulLimbs.tla", "CInitU127", "Combine"),
+    d_apa("MulLimbs (Apalache, i128, f = 127)", "AP_MulLimbs.tla", "CInitS127", "Combine"),
+    d_apa("MulLimbs (Apalache, i128, f = 64) [may time out: reported as inconclusive]", "AP_MulLimbs.tla", "CInitS", "Combine", thorough_only=True),
+]
 D_DIV = [
     d_tlc("DivHalf (TLC, H=8, every (d, r, next half)): quotient digit and remainder exact", "DivHalf", "DivHalf_tlc_8.cfg", "int", subdir="apa"),
     d_tlc("DivHalf (TLC, H=16)", "DivHalf", "DivHalf_tlc_16.cfg", "int", subdir="apa", thorough_only=True),
@@ -66,7 +74,7 @@ D_FLOAT = [
     d_tlc("MC_Float_refute_sub: with subnormals read at EXP_MIN - 1", "MC_Float", "MC_Float_refute_sub.cfg", "int", expect="violated"),
 ]
 DESIGNS = {
-    "C01": [D_SEM] + D_MUL + D_DIV, "C02": [D_SEM] + D_MUL[:2], "C03": [D_SEM] + D_CMP + D_FLOAT[:1], "C04": [D_SEM], "C05": D_FLOAT,
+    "C01": [D_SEM] + D_MUL + D_DIV, "C02": [D_SEM] + D_MUL[:2] + D_MUL[6:11], "C03": [D_SEM] + D_CMP + D_FLOAT[:1], "C04": [D_SEM], "C05": D_FLOAT,
     "C06": [D_SEM, d_tlc("MC_Round: rounding methods as coded (masks, 0/1 integer-bit special cases) = exact roundings, every value, "
                          "68 layouts of widths 2..6 and 8", "MC_Round", "MC_Round.cfg", "int")],
     "C07": [D_SEM] + D_EUCLID, "C09": D_FMT,
